@@ -510,6 +510,14 @@ func (c *UConn) clientHandshake(ctx context.Context) (err error) {
 		// one): do not report a name the peer never saw.
 		c.serverName = ""
 	}
+	if c.clientHelloBuildStatus == BuildByUtls && !slices.ContainsFunc(c.Extensions, func(e TLSExtension) bool {
+		_, ok := e.(*ALPNExtension)
+		return ok
+	}) {
+		// No ALPN extension is sent (a spec without one): a protocol from
+		// Config.NextProtos was never offered, so the server must not select one.
+		hello.alpnProtocols = nil
+	}
 
 	if _, err := c.writeHandshakeRecord(hello, nil); err != nil {
 		return err
